@@ -31,6 +31,7 @@ pub fn ty_text(t: &Ty, u: &Universe) -> String {
         Ty::GenericInstOpt(i) => if def_needs_lifetime(&u.defs[*i], u) { format!("{}<'a, Option<u16>>", u.defs[*i].name()) } else { format!("{}<Option<u16>>", u.defs[*i].name()) }
         Ty::NilOwn => "crate::rt::OwnNil".into(),
         Ty::OptAlias => "crate::rt::OptU8".into(),
+        Ty::BoxOpt(x) => format!("Box<Option<{}>>", ty_text(x, u)),
     }
 }
 
@@ -136,6 +137,7 @@ fn model_expr(t: &Ty, x: &str, u: &Universe) -> String {
         Ty::OptAlias => format!("(match *{} {{ None => vcore::Item::Null, Some(n) => fr.uint(n as u64) }})", x),
         Ty::NilFns => format!("(if {}.0.is_empty() {{ vcore::Item::Null }} else {{ fr.text(&{}.0[..]) }})", x, x),
         Ty::Param => format!("crate::rt::ParamModel::pmodel({}, fr)", x),
+        Ty::BoxOpt(e) => format!("(match &**{} {{ None => vcore::Item::Null, Some(inner) => {} }})", x, model_expr(e, "inner", u)),
     }
 }
 
@@ -249,6 +251,7 @@ fn draw_stmts(fields: &[Field], u: &Universe) -> String {
         let t = field_ty_text(f, u);
         if f.skip { writeln!(s, "        let d{}: {} = crate::rt::Draw::draw(g, ar, &mut crate::rt::Presence::random());", i, t).unwrap() }
         else if f.ty == Ty::OptAlias && !f.optional { writeln!(s, "        let d{}: {} = crate::rt::draw_opt_alias(g);", i, t).unwrap() }
+        else if matches!(f.ty, Ty::BoxOpt(_)) && !f.optional { writeln!(s, "        let d{}: {} = crate::rt::draw_box_opt(g, ar);", i, t).unwrap() }
         else { writeln!(s, "        let d{}: {} = crate::rt::Draw::draw(g, ar, pm);", i, t).unwrap() }
     }
     s
